@@ -826,8 +826,8 @@ def main(ck):
             fh.write(swref)
         ctext = open(inf['c'], encoding='utf-8', errors='replace').read()
         fb = creach.function_bodies(ctext)
-        # all 4.3e9 pairs of the 16-bit types only in the default configuration
-        sw = sweep_cases(ck, full16=(cfgname == 'default'))
+        # all 4.3e9 pairs of the 16-bit types only in the default configuration with fold on
+        sw = sweep_cases(ck, full16=(cfgname == 'default' and fold))   # fold does not change single operations
         unreached = set()
         with st.lock:
             for t in SMALL_SWEEP + WIDE_SWEEP:
